@@ -41,6 +41,27 @@ func init() {
 		fmt.Fprintf(&b, "Definition signal_select_shape : bool := %v.\n", selOK)
 
 		constZ(&b, x, srv, "attempts", "httpServeAttempts")
+
+		// Serve: every task's Run is called directly in its errgroup member and its error is what the member returns (no
+		// wrapper that gives up waiting or swallows an error class); sdnotify.Ready is mentioned exactly once in the
+		// production code of the package -- in Serve, after wg.Wait() -- and nowhere in cmd/corerad/main.go
+		direct, readyOnce := srvServeShape(x.file(srv))
+		fmt.Fprintf(&b, "Definition serve_runs_tasks_directly : bool := %v. (* %s Serve: `if err := t.Run(ctx); err != nil { return ... }` inside eg.Go *)\n", direct, srv)
+		fmt.Fprintf(&b, "Definition ready_after_all_tasks : bool := %v. (* %s: sdnotify.Ready only after wg.Wait() in Serve *)\n", readyOnce, srv)
+		mainReady := 0
+		if mf := x.file("cmd/corerad/main.go"); mf != nil {
+			ast.Inspect(mf, func(n ast.Node) bool {
+				if sel, ok := n.(*ast.SelectorExpr); ok && sel.Sel.Name == "Ready" {
+					if id, ok := sel.X.(*ast.Ident); ok && id.Name == "sdnotify" {
+						mainReady++
+					}
+				}
+				return true
+			})
+		} else {
+			mainReady = -1
+		}
+		fmt.Fprintf(&b, "Definition main_announces_ready : Z := (%d)%%Z. (* occurrences of sdnotify.Ready in cmd/corerad/main.go *)\n", mainReady)
 		return b.String()
 	})
 }
@@ -199,4 +220,65 @@ func srvSelectShape(sel *ast.SelectStmt) bool {
 		}
 	}
 	return done && sig
+}
+
+// srvServeShape inspects Server.Serve.
+func srvServeShape(f *ast.File) (direct, readyOnce bool) {
+	fd := findFunc(f, "Server.Serve")
+	if fd == nil || fd.Body == nil {
+		return false, false
+	}
+	// (1) inside a function literal passed to eg.Go: `if err := t.Run(ctx); err != nil { return <something with err> }`
+	// followed by `return nil`, and nothing else
+	ast.Inspect(fd.Body, func(n ast.Node) bool {
+		c, ok := n.(*ast.CallExpr)
+		if !ok || !isCallExpr(c, "eg", "Go") || len(c.Args) != 1 {
+			return true
+		}
+		fl, ok := c.Args[0].(*ast.FuncLit)
+		if !ok || len(fl.Body.List) != 2 {
+			return true
+		}
+		is, ok1 := fl.Body.List[0].(*ast.IfStmt)
+		rs, ok2 := fl.Body.List[1].(*ast.ReturnStmt)
+		if !ok1 || !ok2 || is.Init == nil || len(rs.Results) != 1 {
+			return true
+		}
+		as, ok := is.Init.(*ast.AssignStmt)
+		if !ok || len(as.Rhs) != 1 || !isCallExpr(as.Rhs[0], "t", "Run") {
+			return true
+		}
+		if id, ok := rs.Results[0].(*ast.Ident); ok && id.Name == "nil" && len(is.Body.List) == 1 {
+			if r, ok := is.Body.List[0].(*ast.ReturnStmt); ok && len(r.Results) == 1 {
+				direct = true
+			}
+		}
+		return true
+	})
+	// (2) sdnotify.Ready: once in the file, inside a function literal of Serve whose first statement is wg.Wait()
+	total, good := 0, 0
+	ast.Inspect(f, func(n ast.Node) bool {
+		if sel, ok := n.(*ast.SelectorExpr); ok && sel.Sel.Name == "Ready" {
+			if id, ok := sel.X.(*ast.Ident); ok && id.Name == "sdnotify" {
+				total++
+			}
+		}
+		return true
+	})
+	ast.Inspect(fd.Body, func(n ast.Node) bool {
+		fl, ok := n.(*ast.FuncLit)
+		if !ok || len(fl.Body.List) == 0 || !isCall(fl.Body.List[0], "wg", "Wait") {
+			return true
+		}
+		ast.Inspect(fl.Body, func(m ast.Node) bool {
+			if sel, ok := m.(*ast.SelectorExpr); ok && sel.Sel.Name == "Ready" {
+				if id, ok := sel.X.(*ast.Ident); ok && id.Name == "sdnotify" {
+					good++
+				}
+			}
+			return true
+		})
+		return true
+	})
+	return direct, total == 1 && good == 1
 }
